@@ -1,6 +1,7 @@
 package harness
 
 import (
+	"bytes"
 	"encoding/json"
 	"fmt"
 	"math/big"
@@ -207,6 +208,14 @@ func genFiniteNZ(t *rapid.T) D {
 
 // genZero draws a zero with any sign and exponent.
 func genZero(t *rapid.T) D {
+	switch ir(t, 0, 7, "zeroKind") {
+	case 0, 1:
+		// the Go zero value / the zero the package itself returns (all exponent bits clear), by far the most
+		// common zero in practice, and its negative
+		return DFin(genSign(t), new(big.Int), ref.Emin)
+	case 2:
+		return DFin(genSign(t), new(big.Int), 0) // IEEE's preferred 0e0
+	}
 	return DFin(genSign(t), new(big.Int), genExp(t))
 }
 
@@ -429,6 +438,27 @@ func exactInAllModes(what string, want d128.Decimal, call func() d128.Decimal) *
 		if g := ref.Decode(got); !ref.SameVal(g, w) {
 			return violf("%s needs no rounding (%s under nearest-even) but under DefaultRoundingMode=%v the result is %s", what, w, m, g)
 		}
+	}
+	return nil
+}
+
+// ownedBytes checks that a byte slice returned by the package belongs to the caller: two results held at the same
+// time do not share memory, and overwriting one does not change what the next call returns (a result served from
+// package-level storage would be corrupted by a caller that edits or reuses its buffer).
+func ownedBytes(what string, first []byte, again func() []byte) (v *Violation) {
+	keep := append([]byte(nil), first...)
+	second := again()
+	for i := range first {
+		first[i] = 0xee
+	}
+	// put the bytes back whatever the outcome, so that a shared buffer does not poison the next evaluation
+	defer copy(first, keep)
+	if !bytes.Equal(second, keep) {
+		return violf("%s: the result of a second call changed when the first result was overwritten (shared storage): % x, was % x", what, second, keep)
+	}
+	third := again()
+	if !bytes.Equal(third, keep) {
+		return violf("%s: after the caller overwrote an earlier result the call returns % x, was % x", what, third, keep)
 	}
 	return nil
 }
